@@ -377,7 +377,7 @@ def run(ctx):
     block_results_stream(ctx, rng)
     fine_scan_stream(ctx, rng)
     leftover_params_stream(ctx, rng)
-    n = ctx.budget(120, 1500)
+    n = ctx.budget(250, 1500)
     maxs = 8 if ctx.tier == "quick" else 14
     for i in range(n):
         if ctx.time_left() < 0:
